@@ -9,6 +9,7 @@ use crate::{
 use arbitrary::Arbitrary;
 use std::collections::BTreeMap;
 use std::marker::PhantomData;
+use std::ops::ControlFlow;
 use tree_hash::Hash256;
 
 pub trait ImmList<T: Value> {
@@ -138,6 +139,30 @@ where
         if !self.updates.is_empty() {
             return Err(Error::BulkUpdateUnclean);
         }
+
+        // Updates at or beyond the current length must extend the list contiguously and within
+        // its capacity, otherwise reads and `apply_updates` would see an inconsistent list.
+        if let Some(max_index) = updates.max_index() {
+            let len = self.backing.len().as_usize();
+            let mut expected = len;
+            updates.for_each_range(len, usize::MAX, |index, _| {
+                if index != expected {
+                    return ControlFlow::Continue(Err(Error::OutOfBoundsUpdate {
+                        index,
+                        len: expected,
+                    }));
+                }
+                expected += 1;
+                ControlFlow::Continue(B::validate_push(index))
+            })?;
+            if max_index >= len && max_index >= expected {
+                return Err(Error::OutOfBoundsUpdate {
+                    index: max_index,
+                    len: expected,
+                });
+            }
+        }
+
         self.updates = updates;
         Ok(())
     }
